@@ -82,6 +82,8 @@ RULES = [
  ('numpy number handed to a math function is the python number', 'C19', '*/exception-InvalidOperation (ROUND / CEILING / FLOOR family with a numpy.float64 argument: Decimal(repr(x)) cannot read numpy 2\'s repr)'),
  ('left unconnected are connected by the next evaluate', 'C01', 'stale-value (a build fails while good precedents are queued; everything they read is already in the model, so no later build made their edges)'),
  ('shows a reference is not left work in progress', 'C09', 'retry-returns-a-value/iterative/*/under-reference-valued-cell (=OFFSET(A1,0,0) over a failing cell answered None on the retry; opened by 34b6f28)'),
+ ('newer text file of the other kind may be what it was made from', 'C03', 'file-written-by-to_file-holds-an-older-model/pkl (to_file(pkl+yml); set_value; to_file(pkl+json); set_value back; to_file(pkl+yml): the pickle still held the json state)'),
+ ('drop the numpy import which the repair of floats', 'C03', 'resave-content-differs (follow-up of 0705fed: unused import)'),
  ('an array and an error value', 'C13', 'array-formula-member-not-pointwise/array-with-error-valued-scalar'),
 ]
 
